@@ -29,16 +29,18 @@ impl Words {
         self.w[self.n] = x;
         self.n += 1;
     }
-    /// pad with zeros up to cursor position `to` (the cursor is always concrete)
+    /// pad with zeros up to cursor position `to`; robust to a cursor that became symbolic after a
+    /// branch (fixed trip count, guarded writes)
     pub fn pad_to(&mut self, to: usize) {
         if to > W {
             harness_bug("Words capacity");
         }
-        while self.n < to {
-            self.w[self.n] = 0;
-            self.n += 1;
+        let mut i = 0;
+        while i < W {
+            let z = (i >= self.n) & (i < to);
+            self.w[i] = sel(z, 0, self.w[i]);
+            i += 1;
         }
-        // slots beyond a shorter variant's payload may hold stale words of a longer one
         self.n = to;
     }
     pub fn of<T: Wordy>(t: &T) -> Self {
@@ -1015,24 +1017,64 @@ pub fn given_occupied(a: u64, v: bool) {
     assume(address_occupied(a) == v);
 }
 
-// ---- concrete byte contents (codec harnesses only)
-pub static mut CONTENT: std::vec::Vec<(u64, std::vec::Vec<u8>)> = std::vec::Vec::new();
+// ---- concrete byte contents (codec harnesses only): a small inline table, no heap
+pub const CMAX: usize = 96;
+pub const CSLOTS: usize = 4;
+pub struct ContentTable {
+    pub n: usize,
+    pub id: [u64; CSLOTS],
+    pub len: [usize; CSLOTS],
+    pub bytes: [[u8; CMAX]; CSLOTS],
+}
+pub static mut CONTENT: ContentTable = ContentTable { n: 0, id: [0; CSLOTS], len: [0; CSLOTS], bytes: [[0; CMAX]; CSLOTS] };
+fn same_content(t: &ContentTable, k: usize, s: &[u8]) -> bool {
+    if t.len[k] != s.len() {
+        return false;
+    }
+    let mut eq = true;
+    let mut i = 0;
+    while i < s.len() {
+        if t.bytes[k][i] != s[i] {
+            eq = false;
+        }
+        i += 1;
+    }
+    eq
+}
 pub fn content_id(s: &[u8]) -> u64 {
     if s.is_empty() {
         return crate::EMPTY_ID;
     }
+    if s.len() > CMAX {
+        harness_bug("byte content longer than the content table rows");
+    }
     let t = unsafe { &mut CONTENT };
-    for (id, c) in t.iter() {
-        if c.as_slice() == s {
-            return *id;
+    let mut k = 0;
+    while k < t.n {
+        if same_content(t, k, s) {
+            return t.id[k];
         }
+        k += 1;
+    }
+    if t.n >= CSLOTS {
+        harness_bug("content table capacity");
     }
     let id: u64 = nondet();
     assume(id != crate::EMPTY_ID);
-    for (idj, _) in t.iter() {
-        assume(*idj != id);
+    let mut j = 0;
+    while j < t.n {
+        assume(t.id[j] != id);
+        j += 1;
     }
-    t.push((id, s.to_vec()));
+    let k = t.n;
+    t.id[k] = id;
+    t.len[k] = s.len();
+    let mut i = 0;
+    while i < s.len() {
+        t.bytes[k][i] = s[i];
+        i += 1;
+    }
+    t.n += 1;
     id
 }
 pub fn content_of(id: u64) -> std::vec::Vec<u8> {
@@ -1040,14 +1082,15 @@ pub fn content_of(id: u64) -> std::vec::Vec<u8> {
         return std::vec::Vec::new();
     }
     let t = unsafe { &mut CONTENT };
-    for (k, c) in t.iter() {
-        if *k == id {
-            return c.clone();
+    let mut k = 0;
+    while k < t.n {
+        if t.id[k] == id {
+            return t.bytes[k][..t.len[k]].to_vec();
         }
+        k += 1;
     }
     harness_bug("Bytes content is abstract: stub the caller by its contract")
 }
-
 /// harness side: the key `EnumName::Variant` of a unit variant of any `#[contracttype]` enum (the
 /// host identifies it by the variant name only)
 #[derive(Clone, Copy, Debug)]
@@ -1074,12 +1117,15 @@ pub fn has_content(id: u64) -> bool {
         return true;
     }
     let t = unsafe { &mut CONTENT };
-    for (k, _) in t.iter() {
-        if *k == id {
-            return true;
+    let mut k = 0;
+    let mut r = false;
+    while k < t.n {
+        if t.id[k] == id {
+            r = true;
         }
+        k += 1;
     }
-    false
+    r
 }
 /// a contract stub consumes the identity of the abstract byte string whose content was requested
 pub fn take_abstract_content() -> u64 {
